@@ -176,6 +176,18 @@ class Session:
                     self.instantiated[key] = self.instantiated.get(key, 0) + 1
                     self.add(r, rt)
                     self.col.feature('op_new')
+                    # second step on the fresh result: rebuilds that go through the constructor *kept inside* the
+                    # instantiation (the empty substitution, to_variance_free, re-instantiation with the same arguments)
+                    r0 = tp.substitute_type(r, {})
+                    if term(r0) != rt:
+                        self.report('C07/empty-substitution-changes-type', {'input': rm.show(rt), 'got': rm.show(term(r0))})
+                    self.check_supers(r0, term(r0), 'empty-substitution-of-new')
+                    r1 = r.to_variance_free()
+                    self.check_supers(r1, term(r1), 'to_variance_free-of-new')
+                    r2 = r.t_constructor.new(list(args_ir))
+                    if term(r2) != rt:
+                        self.report('C07/new-result-has-wrong-arguments', {'got': rm.show(term(r2)), 'want': rm.show(rt)})
+                    self.check_supers(r2, term(r2), 'kept-constructor-new')
                 elif kind == 'subst':
                     ir, t = self.pool[op[1] % len(self.pool)]
                     fv = sorted(rm.free_vars(t))
